@@ -175,6 +175,9 @@ func checkC07(p *load.Program, r *kit.Report) {
 		var upd ssa.CallInstruction
 		for _, u := range updates {
 			a := u.Common().Args
+			if len(a) < 3 {
+				continue // not the reference signature (reported by STREAM-SHAPE/params)
+			}
 			if a[1] == ssa.Value(call) && loadOfField(a[2], longestF) {
 				upd = u
 			}
